@@ -5,7 +5,7 @@ bool g_last_trace_valid = false;
 
 // ------------------------------------------------------------------------------------------------
 // ownership monitor (C14)
-std::string monitor_events(const std::vector<wapi::Event> &ev, int T, const std::vector<uint32_t> &blocks_per_fill, bool recorder, std::map<std::string, uint64_t> *counts)
+std::string monitor_events(const std::vector<wapi::Event> &ev, int T, const std::vector<uint32_t> &blocks_per_fill, bool recorder, std::map<std::string, uint64_t> *counts, bool partial)
 {
   enum
   {
@@ -182,6 +182,8 @@ std::string monitor_events(const std::vector<wapi::Event> &ev, int T, const std:
       break;
     }
   }
+  if (partial)
+    return ""; // an incomplete run (it did not terminate: C04's verdict): only the safety rules above apply
   if (fills != blocks_per_fill.size())
     return "only " + std::to_string(fills) + " of " + std::to_string(blocks_per_fill.size()) + " chunks were loaded";
   if (flushes != fills)
@@ -323,6 +325,17 @@ Verdict run_sched_case(const Case &c, SchedProp which)
       g_last_trace.push_back(t);
     }
     g_last_trace_valid = !d.bad;
+    uint32_t ne = d.u32();
+    for (uint32_t i = 0; i < ne && !d.bad; i++)
+    {
+      wapi::Event e;
+      e.kind = (int)d.u32();
+      e.tid = (int)d.u32();
+      e.obj = d.u64();
+      e.a = (long)d.u64();
+      e.b = (long)d.u64();
+      o.events.push_back(e);
+    }
   }
   // ---- classes ----
   bool preempted = o.sched.preemptions > 0;
@@ -392,9 +405,16 @@ Verdict run_sched_case(const Case &c, SchedProp which)
   {
     if (which == SP_C14)
     {
-      // without a complete event stream the monitor cannot judge; termination is C04's verdict
-      v.classes.push_back("incomplete_run_not_judged");
+      // the run did not terminate (C04's verdict); the hand-over rules are still judged on the events
+      // recorded up to that point
+      v.classes.push_back("incomplete_run_safety_rules_only");
       v.nontrivial = false;
+      if ((r.status == CH_DEADLOCK || r.status == CH_STEPLIMIT) && op != "ver" && !o.events.empty())
+      {
+        std::string m = monitor_events(o.events, e.T, bpf, is_rec, nullptr, true);
+        if (!m.empty())
+          return bad("hand-over protocol violated (in a run that also failed to terminate): " + m);
+      }
       return v;
     }
     return bad("no complete output under this schedule: " + r.describe());
@@ -477,7 +497,7 @@ Case gen_sched_case(SchedProp which)
   long k = g::range(0, 100);
   std::string op = k < 30 ? "enc" : k < 55 ? "dec" : k < 60 ? "ver" : k < 85 ? "rec" : "recnp";
   c.set("op", op);
-  int T = (int)(g::coin(92) ? g::range(1, 6) : 16);
+  int T = (int)(g::coin(85) ? g::range(1, 6) : g::coin(50) ? 16 : g::range(6, 17));
   int bpc = (int)g::range(1, 5); // blocks per chunk
   int chunk = 16 * bpc;
   long q = g::range(0, 3 * T + 2);
